@@ -250,6 +250,29 @@ def native_compression(ctx):
     return last
 
 
+KANI_HARNESSES = [
+    ('start_roundtrip', 'Start marker: every (item_count, seqno) round-trips through encode_into / decode_from in 13 bytes', 600),
+    ('clear_roundtrip', 'Clear marker: every keyspace id round-trips', 600),
+    ('end_roundtrip_and_trailer', 'End marker: every checksum round-trips; any change of one trailer byte is refused', 600),
+    ('decode_arbitrary_marker_bytes', 'decode_from over 14 arbitrary bytes (non-item tags): never panics; tags outside 1..=4 are refused', 600),
+    ('item_roundtrip_small', 'Item: keyspace id, kind, key <= 2 bytes, value <= 2 bytes (uncompressed) round-trip field by field through serialize_marker_item / decode_from', 2400),
+]
+
+
+def check_kani(ctx):
+    """engine K (thorough tier): the compiled codec under CBMC, all inputs within the bound, unwinding assertions on"""
+    for h, desc, to in KANI_HARNESSES:
+        ob = ctx.ob(f'kani/{h}', 'Kani/CBMC over the compiled code: ' + desc, ['journal::entry::verif_kani::' + h])
+        ob.reach = 1
+        r = ctx.kani(h, timeout_s=to)
+        if r == 'success':
+            ob.status = 'discharged'; ob.sample = dict(ctx.kani[-1])
+        elif r == 'failed':
+            ctx.candidate(ob, 'journal-codec/roundtrip', f'Kani harness {h} fails: {ctx.kani[-1].get("failed_checks")}', confirm=lambda: native_cut(ctx, None))
+        else:
+            ob.status = 'undecided'; ob.detail = f'Kani inconclusive: {ctx.kani[-1]}'
+
+
 def run(ctx):
     ctx.assumptions += [
         'F5: xxh3 modelled as an uninterpreted collision-free function on the compared inputs',
@@ -261,6 +284,8 @@ def run(ctx):
     for i, sh in enumerate(shapes):
         check_damage(ctx, sh, i)
     check_compression_choice(ctx)
+    if ctx.tier == 'thorough':
+        check_kani(ctx)
     for o in ctx.obligations:
         ctx.samples.append(o.as_dict())
     return ctx.finish()
